@@ -1450,6 +1450,21 @@ class ModelBuilder:
                     if scenario_idx is not None and attr_data and isinstance(attr_data, tuple):
                         attr_key, attr_value = attr_data
                         obj[(attr_key, scenario_idx)] = attr_value
+                        # Nested scenarios inherit from their parent scenario: hand the value
+                        # down to every descendant that does not override it itself.
+                        explicit = getattr(obj, "_explicit_scenario_attrs", None)
+                        if explicit is None:
+                            explicit = set()
+                            obj._explicit_scenario_attrs = explicit  # type: ignore[union-attr]
+                        explicit.add((attr_key, scenario_idx))
+                        pending = list(obj.project.scenario(scenario_idx).children)
+                        while pending:
+                            child = pending.pop()
+                            child_idx = self._get_scenario_index(obj.project, child.id)
+                            if child_idx is None or (attr_key, child_idx) in explicit:
+                                continue
+                            obj[(attr_key, child_idx)] = attr_value
+                            pending.extend(child.children)
                 elif key == "journalentry":
                     # Create a journal entry for this task
                     self._create_journal_entry(obj, value)  # type: ignore[arg-type]
